@@ -47,8 +47,7 @@ STYLE_CLASSES = ["canon", "grammar.blank", "grammar.sep.bf", "grammar.sep.hdr", 
                  "font.enc.identity", "font.enc.base", "font.enc.cmapname", "font.enc.dict"]
 # style classes in which the grammar / get_font_encoding as the code is does not get to the CMap (Dev_gram = TRUE in
 # the *_asis cfgs; each is a listed finding until its fix: commit, then the switch of that class goes to FALSE)
-GRAMMAR_KNOWN = {"grammar.sep.bf", "grammar.sep.hdr", "grammar.hex-ws", "grammar.ff-nul", "grammar.empty-section",
-                 "grammar.hdr-key", "font.enc.base", "font.enc.cmapname"}
+GRAMMAR_KNOWN = set()          # all repaired (72f099a cca7710 c0049ff 2ef923d be2ac33 8be579a f484824)
 # classes of the repaired defects (fix: 3c7db25 range base, 4a2d879 BOM); none is a known finding any more, they only
 # name a regression
 FORMER_INTERVAL = {"multi.split", "multi.coalesce", "array.split", "array.coalesce"}
